@@ -499,6 +499,15 @@ def check_c17_mp(case, tags):
         if type(e).__name__ != "FakeDeadlock":
             raise
         return Verdict(True, "", False, tags + ["aborted:deadlock"])
+    if t.live_messages():
+        w, i = t.live_messages()[0]
+        return Verdict(False, "message %d of worker %d carries the worker's live statistics array, modified after the put(): the statistics the parent receives are not those of the moment the solution was sent [workers=%d]" % (i, w, len(solvers)), True, tags)
+    if op[0] not in ("min", "max"):
+        from vlib.props.mplevel import partial_statistics
+
+        msg = partial_statistics(pc, cfg, mp, case.get("order"))
+        if msg:
+            return Verdict(False, msg, True, tags)
     finals = [s.get_statistics() for s in solvers]
     bad = []
     for k in total:
